@@ -44,6 +44,7 @@ class Ctx:
             elif atom[0] == "bool":
                 t = atom[1]
                 alts = t[1] if t[0] == "phi" else (t,)
+                alts = tuple(_known_bool(a) for a in alts)
                 if all(a[0] == "const" and a[1] == "bool" for a in alts):
                     vs = set(a[2] for a in alts)
                     good = [tg for v in vs for tg in atom[2][v]]
@@ -121,6 +122,27 @@ class Ctx:
                 out.append((bi, ("int", term, m)))
         self._atoms = out
         return out
+
+
+def _known_bool(t):
+    """boolean library facts about freshly built values (used only to prune infeasible edges):
+    is_empty() of a vector that is `Vec::new()` / `vec![..]` on every reaching path."""
+    if t[0] == "call" and t[1] in ("std::vec::Vec::is_empty", "core::slice::is_empty") and t[2]:
+        v = t[2][0]
+        alts = v[1] if v[0] == "phi" else (v,)
+        vals = set()
+        for x in alts:
+            if x[0] == "call" and x[1] == "std::vec::Vec::new" and not x[2]:
+                vals.add(True)
+            elif x[0] == "call" and x[1] == "vec!":
+                vals.add(len(x[2]) == 0)
+            elif x[0] == "mut" and x[2] == "std::vec::Vec::push":
+                vals.add(False)
+            else:
+                return t
+        if len(vals) == 1:
+            return ("const", "bool", vals.pop())
+    return t
 
 
 def result_test(atom):
